@@ -659,7 +659,10 @@ def _gen_c(ctx, rnd):
         if len(raw) != 82:
             continue
         payload = raw[:78]
-        other = _unb58(chosen[(bi + 1) % len(chosen)])[:78]
+        try:
+            other = _unb58(chosen[(bi + 1) % len(chosen)])[:78]
+        except ValueError:
+            other = payload
         for cls, m in mutations(payload, rnd, other):
             if m in seen:
                 continue
@@ -675,7 +678,12 @@ def _gen_c(ctx, rnd):
         if nd["kn"]["st"] != "ok" or len(nd["kn"]["v"]) != 96 or nd["xs"]["st"] != "ok" or t == 0:
             continue
         K, cc = nd["kn"]["v"][:64], nd["kn"]["v"][64:]
-        raw = _unb58(bytes(nd["xs"]["v"]))
+        try:
+            raw = _unb58(bytes(nd["xs"]["v"]))
+        except Exception:  # noqa - what the code returned is not even Base58 (judged by TLC on the derive event); nothing to re-serialise
+            continue
+        if len(raw) < 78:
+            continue
         fp, idx, k = raw[5:9], raw[9:13], raw[46:78]
         for how in (("bb", "ib", "bi", "ii") if n_ser % 2 == 0 else ("bi", "bb43" if e["net"] == "main" else "ib")):
             prv = (n_ser + len(how)) % 2 == 0
